@@ -383,6 +383,36 @@ WATCH_YAML_FILTERS = WATCH_YAML.replace("""      - paths: [in_p.txt]
 """).replace("      sleep 0.25\n", "      sleep 0.25\n      case $v in bad*) exit 1;; esac\n")
 
 
+def unexplained_builds(lines, nconv):
+    """script starts after the final version reached c.out that nothing explains, judged on zinoma's own event order (no clocks):
+    a start of t1 is explained by a watcher report about in_p.txt since the input state of its previous build was captured
+    (an edit that lands between capture and the script's read is built by that script AND rightly causes one more run - it
+    happens when the machine is loaded); a start of t2 by a build of t1 that finished since t2's previous capture. What a
+    rebuild loop (reacting to one's own outputs or to .zinoma) produces is never explained this way."""
+    nspawn = 0
+    why = {"t1": False, "t2": False}          # something explaining a run of t happened since t's last capture
+    explained = {"t1": False, "t2": False}    # ... as of the capture of the build now being started
+    bad = 0
+    for l in lines:
+        try:
+            e = json.loads(l)
+        except ValueError:
+            continue
+        ev, t = e.get("ev"), e.get("t")
+        if ev == "watch_event" and t == "t1" and e.get("relevant") and any(str(p).endswith("in_p.txt") for p in e.get("paths", [])):
+            why["t1"] = True
+        elif ev == "build_reaped" and t == "t1" and e.get("how") == "ok":
+            why["t2"] = True
+        elif ev == "incr_captured" and t in why:
+            explained[t] = why[t]
+            why[t] = False
+        elif ev == "build_spawned" and t in why:
+            nspawn += 1
+            if nspawn > nconv and not explained[t]:
+                bad += 1
+    return bad
+
+
 def run_watch_scenario(s):
     d = os.path.join(CACHE, "scratch", "bb_" + s["cfg"]["id"])
     shutil.rmtree(d, ignore_errors=True)
@@ -452,7 +482,7 @@ def run_watch_scenario(s):
     early = not r["signalled"] and not r["timed_out"]
     raw.append(json.dumps({"ev": "h_watchrun", "t": "", "early_exit": early, "in_ver": state["ver"],
                            "out_ver": int(state.get("final_out")[1:]) if (state.get("final_out") or "").startswith("v") else -1,
-                           "extra_builds": (state["builds_end"] or 0) - (state["builds_at_conv"] or 0)}))
+                           "extra_builds": unexplained_builds(lines, state["builds_at_conv"] or 0)}))
     if r["timed_out"]:
         raw.append(json.dumps({"ev": "h_stall", "t": ""}))
     else:
